@@ -99,11 +99,14 @@ MANIFEST = dict(
     text="Theorems about the executable Gallina model of BinArchive::serialize: the image does not depend on the iteration order of the four "
          "hash maps (for all permutations of the association lists, by uniqueness of a stable sort on distinct keys; big-endian label order "
          "by name with address tie-break is a total order), hence archives answering every lookup alike - whatever API history or hash "
-         "state produced them - serialize to identical bytes (see Properties/C02.v for the exact list and for what is still `_partial`: "
-         "the equality with an independently written canonical image). Model tied to /repo on every run: byte-exact comparison of the "
+         "state produced them - serialize to identical bytes; the image equals an independently written canonical image "
+         "(C02_serialize_is_canonical) (see Properties/C02.v for the exact list). Model tied to /repo on every run: byte-exact comparison of the "
          "extracted model with the real library on shuffled API histories, an independent Python canonical writer as oracle, images "
          "compared across fresh processes, parse -> re-serialize identity.",
     note=TB + "Modelled, not verified: HashMap (association lists in arbitrary order), IndexMap, stable sort_by (A-std); strings are "
-              "Shift-JIS encoded bytes, label-name order = byte order (A-codec, ASCII+kana names in generated big-endian archives).",
+              "Shift-JIS encoded bytes (A-codec). Big-endian label order: the library compares names as Strings (scalars of the decoded names); "
+              "serialize_k / canonical take that sort key as a parameter kf, the theorems hold for every kf (C02_serialize_is_canonical: kf injective on "
+              "the names, or distinct label addresses; C02_example_key_matters is the reviewers' witness) and every run passes the library's own decoding "
+              "of every big-endian name to the extracted model (case-line group K) - no restriction on names.",
     technique="Coq proof (sorted permutations of a list with an antisymmetric total order are equal; permutation invariance of serialize) + extracted-model differential check + multi-process determinism run",
     ref="DESIGN.md section 2 (C02)")
